@@ -282,15 +282,17 @@ def rotate(cells, seed, **dims):
 
 def with_big(cells, big, seed):
     """the tiny cells get size=tiny; the cells of `big` (size=big) are appended, the primary dimensions they lack are
-    walked cyclically from the seed"""
+    walked cyclically from the seed.  svd_iter (the number of power iterations of the randomised SVD, None = the
+    library's default in the tiny cells) alternates 0, 1 along `big`, whose LAST dimension has two values: of the two
+    cells that differ in it only, one has no power iteration at all (the random range finder is all there is)."""
     keys = {k: [] for c in cells for k in c}
     for c in cells:
         for k, v in c.items():
             if v not in keys[k]:
                 keys[k].append(v)
-    out = [dict(c, size="tiny") for c in cells]
+    out = [dict(c, size="tiny", svd_iter=None) for c in cells]
     for i, c in enumerate(big):
-        c = dict(c, size="big")
+        c = dict(c, size="big", svd_iter=(i + seed) % 2)
         for j, (k, vals) in enumerate(sorted(keys.items())):
             if k not in c:
                 c[k] = vals[(i + seed + j) % len(vals)]
@@ -874,11 +876,14 @@ def cells_wasserstein(seed):
 
 
 def ot_sizes(rng, cell, method, uniform=False):
-    """(n_cols, dim, ref, n_rows, n_components, block rows, memory_size, rows of the pool inputs A / B).
+    """(n_cols, dim, ref, n_rows, n_components, block rows, memory_size, rows of the pool inputs A / B, n_svd_iter).
     tiny: reference 3 x dim 2-3, blocks of 3 rows (a size below one row divides by zero in transform: not C13's).
     big: 40-60 rows, LOT coordinates of rank >= 15 (reference 5 x dim 4-5, one less per reference point on the sphere;
     dim 16 for the linear-algebra heuristic, whose SVD sees rows x dim), n_components 2-3, so that
-    n_components + 10 oversamples < min(rows of a block, rank): randomized_svd is really randomised; memory_size gives
+    n_components + 10 oversamples < min(rows of a block, rank): randomized_svd is really randomised, and 0 or 1 power
+    iterations (n_svd_iter = the cell's svd_iter; with the default 7-10, and on the smooth Sinkhorn vectors already
+    with 2, it converges to the exact SVD to ~1e-9 on such small matrices and the random start is forgotten - tiny
+    cells keep the default); memory_size gives
     blocks of b rows, n_components + 12 <= b <= rows / 2, i.e. at least two full blocks.
     uniform (generator input under the cosine metric only): the library hands each chunk of a stream to numba as a
     TUPLE of arrays there, and numba compiles the kernel anew for every tuple length (3-7 s each), so these cells use
@@ -886,15 +891,16 @@ def ot_sizes(rng, cell, method, uniform=False):
     last block is covered by the euclidean cells, where the chunks are typed lists)."""
     metric = cell["metric"]
     if cell.get("size") == "big":
-        n_cols, dim, ref = (20, 16, 5) if method in ("HeuristicLinearAlgebra", "approx") else (12, int(rng.randint(4, 6)), 5)
+        n_cols, dim, ref = (20, 16, 5) if method in ("HeuristicLinearAlgebra", "approx") else (12, int(rng.randint(4, 7)), 5)
         n_rows = int(rng.randint(40, 61))
         ncomp = int(rng.randint(2, 4))
         b = int(rng.randint(ncomp + 12, n_rows // 2 + 1))
+        niter = cell["svd_iter"]
     else:
         n_cols, dim, ref = 6, int(rng.randint(2, 4)), 3
         n_rows = int(rng.randint(14, 20))
         ncomp = ot_components(rng, metric, method, ref, dim)
-        b = 3
+        b, niter = 3, None
     if uniform:
         n_rows, b = (48, 16) if cell.get("size") == "big" else (18, 3)
     if cell.get("memory") == "small":
@@ -902,16 +908,18 @@ def ot_sizes(rng, cell, method, uniform=False):
         na = b + int(rng.randint(3, 7))                                      # ... and every transform of A / B takes >= 2 blocks
     else:
         mem, block, na = "2G", 10 ** 9, int(rng.randint(6, 10))
-    return n_cols, dim, ref, n_rows, ncomp, block, mem, na
+    return n_cols, dim, ref, n_rows, ncomp, block, mem, na, niter
 
 
 def sc_wasserstein(rng, cell, fx):
     im, method = cell["path"].split("/")
     metric = cell["metric"]
     uniform = im == "generator" and metric == "cosine"
-    n_cols, dim, ref, n_rows, ncomp, block, mem, na = ot_sizes(rng, cell, method, uniform)
+    n_cols, dim, ref, n_rows, ncomp, block, mem, na, niter = ot_sizes(rng, cell, method, uniform)
     kw = {"input_method": im, "method": method, "n_components": ncomp,
           "random_state": int(rng.randint(1000)), "metric": metric, "memory_size": mem}
+    if niter is not None:
+        kw["n_svd_iter"] = niter
     if method != "HeuristicLinearAlgebra":
         kw["reference_size"] = ref
     if cell["cachedir"]:
@@ -981,9 +989,11 @@ def cells_sinkhorn(seed):
 
 def sc_sinkhorn(rng, cell, fx):
     metric = cell["metric"]
-    n_cols, dim, ref, n_rows, ncomp, block, mem, na = ot_sizes(rng, cell, "LOT_sinkhorn")
+    n_cols, dim, ref, n_rows, ncomp, block, mem, na, niter = ot_sizes(rng, cell, "LOT_sinkhorn")
     kw = {"n_components": ncomp, "random_state": int(rng.randint(1000)),
           "reference_size": ref, "metric": metric, "memory_size": mem}
+    if niter is not None:
+        kw["n_svd_iter"] = niter
     if cell["cachedir"]:
         kw["cachedir"] = "CACHEDIR"
     fitd, pool, refit, poison = ot_sparse_data(rng, cell, n_cols, dim, n_rows, na=na)
@@ -1000,10 +1010,12 @@ def cells_approxw(seed):
 
 
 def sc_approxw(rng, cell, fx):
-    n_cols, dim, _, n_rows, ncomp, _, _, _ = ot_sizes(rng, dict(cell, metric="euclidean"), "approx")
+    n_cols, dim, _, n_rows, ncomp, _, _, _, niter = ot_sizes(rng, dict(cell, metric="euclidean"), "approx")
     if cell["size"] != "big":
         n_rows = int(rng.randint(8, 14))
     kw = {"n_components": ncomp, "random_state": int(rng.randint(1000)), "normalization_power": cell["power"]}
+    if niter is not None:
+        kw["n_svd_iter"] = niter
     fitd, pool, refit, poison = ot_sparse_data(rng, cell, n_cols, dim, n_rows, with_vec_kw=False)
     return Scenario(V.ApproximateWassersteinVectorizer, "ApproximateWassersteinVectorizer(%r) rows=%d dim=%d X:%s vectors:%s" % (kw, n_rows, dim, cell["fmt"], cell["vec"]),
                     freeze(kw), fitd, pool, poison=poison, seeded=True, refit_data=refit, use_ft=cell["use_ft"])
@@ -1080,13 +1092,15 @@ CFC_FIT = ["csr", "csc", "coo", "dia", "bsr", "csr_unsorted", "csc_unsorted", "c
 
 def cells_cfc(seed):
     # big: 40-60 rows x 16-20 columns, n_components 2-3: randomized_svd's range finder does not span everything
-    cells = with_big(cross(algorithm=["randomized", "arpack"], fmt=CFC_FIT), cross(algorithm=["randomized", "arpack"] * 3), seed)
+    cells = with_big(cross(algorithm=["randomized", "arpack"], fmt=CFC_FIT), cross(algorithm=["randomized", "randomized", "arpack", "arpack"]), seed)
     return rotate(cells, seed, use_ft=[False, True], data=["random", "mirror"])
 
 
 def sc_cfc(rng, cell, fx):
     big = cell["size"] == "big"
     kw = {"n_components": int(rng.randint(2, 4)) if big else 2, "algorithm": cell["algorithm"], "random_state": int(rng.randint(1000))}
+    if big:
+        kw["n_iter"] = cell["svd_iter"]            # (as in ot_sizes: no or one power iteration, the random start matters)
     return matrix_like(T.CountFeatureCompressionTransformer, "CountFeatureCompressionTransformer", kw, rng, cell, CFC_FIT,
                        CFC_FIT + ["lil", "dok"], seeded=True, n_cols=int(rng.randint(16, 21) if big else rng.randint(5, 8)), strict_shape=True,
                        n_rows=int(rng.randint(40, 61)) if big else None)
@@ -1398,6 +1412,30 @@ class Sabotage:
         return False
 
 
+class Reseed:
+    """the FIRST call of randomized_svd (in the optimal transport module and in the count feature compression module)
+    gets a generator of the harness instead of the one it was given: what a fit would do if that call did not use the
+    estimator's random_state.  Used to show that a cell can tell (evidence), never for a verdict."""
+    def __enter__(self):
+        self.count, self.orig = 0, {m: m.randomized_svd for m in (LOT, _CFC)}
+
+        def wrap(orig):
+            def randomized_svd(M, *a, **k):
+                self.count += 1
+                if self.count == 1:
+                    k["random_state"] = np.random.RandomState(987654321)
+                return orig(M, *a, **k)
+            return randomized_svd
+        for m, o in self.orig.items():
+            m.randomized_svd = wrap(o)
+        return self
+
+    def __exit__(self, *exc):
+        for m, o in self.orig.items():
+            m.randomized_svd = o
+        return False
+
+
 def compare_models(m0, m1, what, viol, suffix=""):
     """every attribute that the reference fit m1 defines has the same value in m0 (attributes that only m0 has were
     assigned by transform calls made on it - RowDenoisingTransformer.mix_weights_ - and are not part of the fit)"""
@@ -1521,6 +1559,14 @@ def run_cell(name, ci, ncells, cell, seed, fx, dirs, base):
         else:
             compare_models(model0, model1, "two-fits-differ", viol,
                            " between two fits%s" % (" with random_state=%r" % params.get("random_state") if sc.seeded else ""))
+            if sc.seeded and cell.get("size") == "big":
+                # evidence: would this cell see one SVD call that does not use the estimator's random_state?
+                with Reseed() as rs:
+                    probe, r = fresh_fit(sc.fit_data)
+                if rs.count and not isinstance(r, Exception):
+                    tmp = []
+                    compare_models(model0, public_model(probe), "probe", tmp)
+                    res["checks"]["seed_sensitive"] = "yes" if tmp else "no"
 
     def reference(i, hinted, clone, data_factory):
         """a single call of input #i (with the same keywords) on an untouched copy of the fitted estimator / a freshly
